@@ -280,6 +280,8 @@ namespace hs
             op_foreign_adjacent(op);
         else if (k == "drain")
             op_drain(op);
+        else if (k == "fill")
+            op_fill(op);
         else if (k == "bad")
             op_bad(op);
         else if (k == "badblk")
@@ -1071,8 +1073,10 @@ namespace hs
         if (!S.o || S.husk)
             return;
         auto& c = S.o->caps;
-        if (c.kind == K_ITER || c.kind == K_TEMP)
+        if (c.kind == K_TEMP || (c.kind == K_ITER && a.fam == MEMBER))
             return; // lifetime is the iteration count / the scope
+        // (an iteration allocator's traits-level and composable deallocation do nothing, but they are legal calls and
+        //  the composable one says whether the memory is the allocator's own: the allocation ends in the model)
         if (c.kind == K_STACK && a.fam == MEMBER)
             return; // no individual deallocation: lives until unwound
         if (c.kind == K_STATIC && a.fam == MEMBER)
@@ -1933,5 +1937,37 @@ namespace hs
                 break;
         }
         stats().hit("reach.pool_drained");
+    }
+
+    // stack-like allocators: one request for exactly what capacity_left() announces (the last byte of the block or
+    // region is used); it must be served from the current block
+    void Interp::op_fill(const Op& op)
+    {
+        auto S = live_obj(op.arg(0));
+        if (!S)
+            return;
+        auto& c = S->o->caps;
+        if (c.kind != K_STACK && c.kind != K_ITER && c.kind != K_STATIC)
+            return;
+        auto cap = S->o->reading(0);
+        if (cap <= 2 * FENCE || cap > (std::size_t(1) << 20))
+            return;
+        auto size = cap - 2 * FENCE;
+        if (size > S->o->max_node())
+            return;
+        Req    r{op.arg(1) % 2 ? TRAITS : MEMBER, false, 1, size, 1};
+        Alloc* a   = nullptr;
+        bool   got = do_alloc(*S, index_of(*S), r, 0, &a, false);
+        if (!got)
+            violate("C18,C02", "capacity_left_not_usable", "capacity_left() is %zu but a request for %zu byte(s) at "
+                                                           "alignment 1 (plus %zu fence bytes) failed",
+                    cap, size, 2 * FENCE);
+        if (last_calls_)
+            violate("C18,C02", "capacity_left_not_usable", "capacity_left() is %zu but a request for %zu byte(s) at "
+                                                           "alignment 1 (plus %zu fence bytes) made the allocator grow",
+                    cap, size, 2 * FENCE);
+        if (S->o->reading(0) != 0 && c.kind != K_STACK)
+            violate("C18", "counter_delta", "capacity_left() is %zu after a request for all of it", S->o->reading(0));
+        stats().hit("reach.filled_to_the_last_byte");
     }
 } // namespace hs
